@@ -244,6 +244,8 @@ type ECase struct {
 	Backend string `json:"backend"`
 	Addr    string `json:"addr"`
 	Mask    uint64 `json:"mask"`
+	// Assembled: the world is what server.FullAssembly wires together (see hx.Cfg.Assembled)
+	Assembled bool `json:"assembled,omitempty"`
 }
 
 type hdr struct {
@@ -276,10 +278,11 @@ var propE2E = hx.Prop[ECase]{
 	Quick: 150, Thorough: 1200,
 	Gen: func(t *rapid.T) ECase {
 		return ECase{
-			Naming:  rapid.SampledFrom([]string{"local", "full", "domain"}).Draw(t, "naming"),
-			Backend: rapid.SampledFrom([]string{"mem", "file"}).Draw(t, "backend"),
-			Addr:    addrGen.Draw(t, "addr"),
-			Mask:    rapid.Uint64().Draw(t, "mask"),
+			Naming:    rapid.SampledFrom([]string{"local", "full", "domain"}).Draw(t, "naming"),
+			Backend:   rapid.SampledFrom([]string{"mem", "file"}).Draw(t, "backend"),
+			Addr:      addrGen.Draw(t, "addr"),
+			Mask:      rapid.Uint64().Draw(t, "mask"),
+			Assembled: rapid.IntRange(0, 2).Draw(t, "assembled") == 0,
 		}
 	},
 	Run: runE2E,
@@ -288,7 +291,10 @@ var propE2E = hx.Prop[ECase]{
 func runE2E(c ECase) *hx.Outcome {
 	o := &hx.Outcome{}
 	cfg := hx.DefaultCfg()
-	cfg.Naming, cfg.Backend = c.Naming, c.Backend
+	cfg.Naming, cfg.Backend, cfg.Assembled = c.Naming, c.Backend, c.Assembled
+	if c.Assembled {
+		o.Class("world wired by server.FullAssembly")
+	}
 	w, err := hx.NewWorld(cfg)
 	if err != nil {
 		o.Failf(pid+":harness", "world: %v", err)
